@@ -46,6 +46,7 @@ Recommended but optional to implement for a concrete detector:
 __author__ = ["Tveten"]
 __all__ = ["BaseDetector"]
 
+import numpy as np
 import pandas as pd
 from sktime.base import BaseEstimator
 from sktime.utils.validation.series import check_series
@@ -355,7 +356,10 @@ class BaseDetector(BaseEstimator):
         if y is not None:
             y = check_series(y, allow_index_names=True)
 
-        self._X = X.combine_first(self._X)
+        # NumPy arrays carry no index: combine them as pandas data with a default index.
+        X_new = pd.DataFrame(X) if isinstance(X, np.ndarray) else X
+        X_old = pd.DataFrame(self._X) if isinstance(self._X, np.ndarray) else self._X
+        self._X = X_new.combine_first(X_old)
 
         if y is not None:
             self._y = y.combine_first(self._y)
